@@ -311,7 +311,8 @@ class PPO(RLAlgorithm):
         _, _, entropy, values = self._get_action_and_values(obs)
 
         # log_prob of passed actions given the current policy
-        log_prob = self.actor.action_log_prob(actions)
+        # (stored actions come from forward_head: squashed but not scaled)
+        log_prob = self.actor.head_net.log_prob(actions)
 
         # Use -log_prob as entropy when squashing output in continuous action spaces
         entropy = -log_prob.mean() if entropy is None else entropy
